@@ -77,9 +77,8 @@ def sstep_of(state_text, lab):
 def sproject(beh):
     """Server scenarios.  Besides the projection on driver steps: when the model lets loopy reach the final
     GOAWAY (SFinalBegin) while a HEADERS frame is between SRecord and SRegister, the corresponding send becomes a
-    race send (the driver holds the server's reader at the hook point h2s.beforeRegister) and a release step is
-    placed after the step that triggers the final GOAWAY (PING ack / timer), or after the send if the trigger
-    came first."""
+    race send (the driver holds the server's reader at the hook point h2s.beforeRegister); race_variants() then puts
+    the scenario into the wire orders in which the race is physically possible."""
     out, inrec, lastsend = [], False, None
     for st in beh:
         if st["a"] == "internal":
@@ -97,14 +96,6 @@ def sproject(beh):
             out.append(s)
             if s["a"] == "send":
                 lastsend = len(out) - 1
-    for k, s in enumerate(out):
-        if s.get("race"):
-            trig = [i for i, x in enumerate(out) if x["a"] == "pong"]
-            pos = trig[0] if trig and trig[0] > k else k
-            for x in out[k:pos + 1]:
-                x["w"] = 0
-            out.insert(pos + 1, {"a": "release", "w": 1})
-            break
     return out
 
 
@@ -119,6 +110,22 @@ def project(beh):
             s["w"] = 0
             out.append(s)
     return out
+
+
+def race_variants(p):
+    """A race scenario in canonical wire orders.  The heads-up GOAWAY + PING must have reached the client before the
+    race (stop is followed by quiescence), because outgoingGoAwayHandler takes maxStreamMu for the heads-up GOAWAY too:
+    holding the reader earlier would only block loopy.  A: PING ack written just before the HEADERS (the reader fires
+    the drain event, then is held inside operateHeaders while loopy produces the final GOAWAY).  C: HEADERS before the
+    ack; its timer variant (pong -> timer, made in run()) is the 5 s timer firing while the reader is held."""
+    k = [i for i, s in enumerate(p) if s.get("race")][0]
+    pre = [dict(s) for s in p[:k] if s["a"] not in ("stop", "pong")]
+    post = [dict(s) for s in p[k + 1:] if s["a"] not in ("stop", "pong")]
+    if pre:
+        pre[-1]["w"] = 1
+    send = dict(p[k], w=0)
+    stop, pong, rel = {"a": "stop", "w": 1}, {"a": "pong", "w": 0}, {"a": "release", "w": 1}
+    return [pre + [stop, pong, send, rel] + post, pre + [stop, send, pong, rel] + post]
 
 
 def scenarios(ctx, module, cfg, step_of, limit, project=project):
@@ -153,7 +160,16 @@ def run(ctx):
     # (a) design level: the graph dumps carry every invariant of their scope (= exhaustive check)
     crows = scenarios(ctx, "GoAwayClient", "GoAwayClientMC.cfg", cstep_of, ctx.pick(1200, 6000))
     srows = scenarios(ctx, "GoAwayServer", "GoAwayServerMC.cfg", sstep_of, None, project=sproject)
-    ctx.log("server scenarios with a HEADERS / final-GOAWAY race: %d" % sum(1 for p in srows if any(s.get("race") for s in p)))
+    nrace = sum(1 for p in srows if any(s.get("race") for s in p))
+    exp, seen = [], set()
+    for p in srows:
+        for q in (race_variants(p) if any(s.get("race") for s in p) else [p]):
+            k = json.dumps(q, sort_keys=True)
+            if k not in seen:
+                seen.add(k)
+                exp.append(q)
+    srows = exp
+    ctx.log("server scenarios with a HEADERS / final-GOAWAY race: %d model behaviours -> %d scenarios in all" % (nrace, len(srows)))
     ctx.neg("GoAwayClient", "GoAwayClientNeg1.cfg", expect="I_FailHigh", workers=2)
     ctx.neg("GoAwayServer", "GoAwayServerNeg5.cfg", expect="I_NoSilentDrop", workers=2)
     if not ctx.quick():
@@ -166,7 +182,7 @@ def run(ctx):
     cb = os.path.join(ctx.run, "beh-client.ndjson")
     ct = os.path.join(ctx.run, "trace-client.ndjson")
     write_ndjson(cb, [{"steps": p} for p in crows])
-    ctx.cov["client"] = summary(ctx.driver(cbin, "TestVerifC14Client", {"VERIF_BEHAVIOURS": cb, "VERIF_OUT": ct}, timeout=900))
+    ctx.cov["client"] = summary(ctx.driver(cbin, "TestVerifC14Client", {"VERIF_BEHAVIOURS": cb, "VERIF_OUT": ct}, timeout=300))
     for p in crows:
         ctx.count(["client", p], nontrivial=len(p) >= 3)
     ctx.sample({"client": crows[len(crows) // 2]})
@@ -181,7 +197,15 @@ def run(ctx):
     sb = os.path.join(ctx.run, "beh-server.ndjson")
     st = os.path.join(ctx.run, "trace-server.ndjson")
     write_ndjson(sb, rows)
-    ctx.cov["server"] = summary(ctx.driver(sbin, "TestVerifC14Server", {"VERIF_BEHAVIOURS": sb, "VERIF_OUT": st}, timeout=900))
+    # every scenario runs under a 20 s real-time watchdog inside the driver; an abandoned scenario (no progress in its
+    # synctest bubble) is dropped from the trace and counted - never a verdict; more than 2 of them = inconclusive
+    ssum = summary(ctx.driver(sbin, "TestVerifC14Server", {"VERIF_BEHAVIOURS": sb, "VERIF_OUT": st, "VERIF_WATCHDOG_S": 20,
+                                                            "VERIF_MAX_ABANDON": 3}, timeout=240))
+    ctx.cov["server"] = ssum
+    if ssum.get("abandoned", 0):
+        print("DRIFT property=C14 %d server scenario(s) abandoned by the watchdog (no progress); not a verdict" % ssum["abandoned"], flush=True)
+    if ssum.get("abandoned", 0) > 2 or ssum.get("not_run", 0):
+        raise Inconclusive("server driver: %d scenarios abandoned by the watchdog, %d not run" % (ssum.get("abandoned", 0), ssum.get("not_run", 0)))
     for r in rows:
         ctx.count(["server", r["steps"]], nontrivial=len(r["steps"]) >= 3)
     ctx.sample({"server": rows[len(rows) // 2]})
